@@ -277,14 +277,13 @@ pub(crate) fn settings<C: CryptoKey>(be: &DecryptBackend<C>) -> (Option<i32>, bo
 // ---------------------------------------------------------------------------
 // C04: a decrypt failure always becomes a read failure (no fallback to raw bytes)
 // ---------------------------------------------------------------------------
-static REJECT: std::sync::atomic::AtomicBool = std::sync::atomic::AtomicBool::new(false);
 /// key whose MAC check fails exactly when the harness says so (models "any tampering makes decryption fail":
 /// the AEAD's job, assumed); otherwise it strips the 16+16 byte framing
 #[derive(Clone, Copy, Debug)]
-pub(crate) struct FlagKey;
-impl CryptoKey for FlagKey {
+pub(crate) struct FlagKey<const REJECT: bool>;
+impl<const REJECT: bool> CryptoKey for FlagKey<REJECT> {
     fn decrypt_data(&self, data: &[u8]) -> RusticResult<Vec<u8>> {
-        if REJECT.load(SeqCst) || data.len() < 32 { return Err(RusticError::new(ErrorKind::Cryptography, "mac")); }
+        if REJECT || data.len() < 32 { return Err(RusticError::new(ErrorKind::Cryptography, "mac")); }
         let n = data.len() - 32;
         let mut out = Vec::with_capacity(8);
         let mut j = 0;
@@ -308,9 +307,9 @@ static STORED: [u8; 36] = [0, 0, 0, 0, 0, 0, 0, 0, 0, 0, 0, 0, 0, 0, 0, 0, b'{',
 //@ timeout: 900
 //@ mem: 10
 //@ kernel: DecryptBackend::{decrypt, decrypt_file, read_encrypted_full}, DecryptReadBackend::{read_encrypted_from_partial, read_encrypted_partial}
-//@ bound: a stored 36-byte file/blob (4 payload bytes in a 16+16 byte frame) served by a mock store; the key's MAC verdict: rejects (this harness) / accepts (c04_accepting_key_reads_check_lengths); read through one of read_encrypted_full / read_encrypted_partial (symbolic offset/length inside or outside the file) / read_encrypted_from_partial with symbolic recorded uncompressed length (None / any u32)
+//@ bound: a stored 36-byte file/blob (4 payload bytes in a 16+16 byte frame) served by a mock store; the key's MAC verdict: rejects (this harness) / accepts (c04_accepting_key_reads_check_lengths); read through one of read_encrypted_full / read_encrypted_partial (whole file / truncated frame / range outside the file) / read_encrypted_from_partial with symbolic recorded uncompressed length (None / any u32)
 //@ oracle: if the key rejects, every read path returns Err - never raw or partial bytes; if the key accepts, a result is returned only when the recorded uncompressed length matches the decompressed length, otherwise Err; no panic for any offset/length
-//@ stub: CryptoKey = FlagKey (MAC verdict is a harness flag: the AEAD's tamper detection is assumed, its strength is outside); zstd::stream::decode_all -> 0xFD framing; Backtrace::capture
+//@ stub: CryptoKey = FlagKey (MAC verdict is a harness flag: the AEAD's tamper detection is assumed, its strength is outside); zstd::stream::decode_all -> 0xFD framing; ToString::to_string -> empty string (error context values only); RusticError text; Backtrace::capture
 //@ outside: cryptographic strength of Poly1305-AES, nonce uniqueness, key files / passwords / scrypt
 #[kani::proof]
 #[kani::unwind(40)]
@@ -320,7 +319,8 @@ static STORED: [u8; 36] = [0, 0, 0, 0, 0, 0, 0, 0, 0, 0, 0, 0, 0, 0, 0, 0, b'{',
 #[kani::stub(crate::error::RusticError::attach_context, crate::error::verif_harness::stub_attach_context)]
 #[kani::stub(crate::error::RusticError::attach_source, crate::error::verif_harness::stub_attach_source)]
 #[kani::stub(zstd::stream::decode_all, crate::error::verif_harness::stub_decode_all)]
-pub(crate) fn c04_decrypt_failure_is_read_failure() { reject_check(true); }
+#[kani::stub(alloc::string::ToString::to_string, crate::error::verif_harness::ToStringModel::to_string)]
+pub(crate) fn c04_decrypt_failure_is_read_failure() { reject_check::<true>(); }
 
 //@ harness: c04_accepting_key_reads_check_lengths
 //@ prop: C04 C05
@@ -339,14 +339,15 @@ pub(crate) fn c04_decrypt_failure_is_read_failure() { reject_check(true); }
 #[kani::stub(crate::error::RusticError::attach_context, crate::error::verif_harness::stub_attach_context)]
 #[kani::stub(crate::error::RusticError::attach_source, crate::error::verif_harness::stub_attach_source)]
 #[kani::stub(zstd::stream::decode_all, crate::error::verif_harness::stub_decode_all)]
-pub(crate) fn c04_accepting_key_reads_check_lengths() { reject_check(false); }
+#[kani::stub(alloc::string::ToString::to_string, crate::error::verif_harness::ToStringModel::to_string)]
+pub(crate) fn c04_accepting_key_reads_check_lengths() { reject_check::<false>(); }
 
 /// the key's verdict is concrete per harness (a symbolic verdict merges the Ok and Err worlds of `decrypt`:
 /// no result in 15 min); everything else is symbolic
-fn reject_check(reject: bool) {
+fn reject_check<const REJECT: bool>() {
+    let reject = REJECT;
     let rec = Arc::new(RecBe::new(&STORED));
-    let be = DecryptBackend::new(rec.clone() as Arc<dyn WriteBackend>, FlagKey);
-    REJECT.store(reject, SeqCst);
+    let be = DecryptBackend::new(rec.clone() as Arc<dyn WriteBackend>, FlagKey::<REJECT>);
     let id = vh::mk_id(1);
     let which: u8 = kani::any();
     kani::assume(which < 3);
@@ -356,7 +357,10 @@ fn reject_check(reject: bool) {
                std::mem::forget(r); ok }
         1 => {
             let ul = std::num::NonZeroU32::new(kani::any());
-            let loc = BlobLocation { offset: kani::any(), length: kani::any(), uncompressed_length: ul };
+            // the read range is a symbolic choice among concrete ranges (a symbolic length makes every later copy a
+            // symbolic-size memcpy): the whole file, a truncated frame, a range outside the file
+            let (o, l) = match kani::any::<u8>() % 3 { 0 => (0u32, 36u32), 1 => (0, 20), _ => (40, 4) };
+            let loc = BlobLocation { offset: o, length: l, uncompressed_length: ul };
             let r = be.read_encrypted_partial(FileType::Pack, &id, false, loc);
             let ok = r.is_ok();
             if let Ok(b) = &r {
